@@ -16,7 +16,7 @@ func init() {
 			"D3 whiteouts invisible — ReadDir lists a child only if it is not a whiteout, Stat/Read/ReadAt/Seek of a whiteout node fail with ErrNotExist before touching the file; " +
 			"D4 the file-requirer restriction only removes nodes (no insertion) and only nodes the requirer rejects; D5 only sanctioned omissions — every tar entry read reaches the insertion into the views unless it is an escaping name, a '.'/'..' base name, already present in the newest view being filled, of an unsupported type, or its handler failed; in particular whiteouts are never filtered by the requirer; " +
 			"D6 views are built from immutable shared nodes (rule shared with C17-D4). " +
-			"Added in round 2: D7 chain-layer view trees are inserted into only by the guarded fill routine (and the root insert); D8 every tar entry passes populateEmptyDirectoryNodes before it is added to the views. Added in round 3: an entry's handler runs only when the newest view has no node at its path; the requirer restriction prunes chainLayers[len-1]. NOT decided: overlay semantics as a whole (opaque whiteouts, which the code does not implement; order of entries within a layer; content/size/mode equality; equivalence with the squashed unpacking).",
+			"Added in round 2: D7 chain-layer view trees are inserted into only by the guarded fill routine (and the root insert); D8 every tar entry passes populateEmptyDirectoryNodes before it is added to the views. Added in round 3: an entry's handler runs only when the newest view has no node at its path; the requirer restriction prunes chainLayers[len-1]. Added in round 7: D12 a layer's regular file is copied from the tar reader or a reader wrapped around it for that entry (no capped reader shared by the entries of a layer). NOT decided: overlay semantics as a whole (opaque whiteouts, which the code does not implement; order of entries within a layer; content/size/mode equality; equivalence with the squashed unpacking).",
 		Run: runC04,
 		Controls: []Mutant{
 			{Name: "overwrite-existing", File: "artifact/image/layerscanning/image/image.go", Old: "		if node := chainLayer.fileNodeTree.Get(virtualPath); node != nil {\n			// A newer version of the file already exists on a later chainLayer.\n			// Since we do not want to overwrite a later layer with information\n			// written in an earlier layer, skip this file.\n			continue\n		}\n", New: "", Rule: "D1-newest-wins", Site: "fillChainLayersWithFileNode"},
@@ -59,6 +59,8 @@ func runC04(p *Prog, r *Report) {
 	cutsetDiscipline(p, r, "D10-lookup-normalisation", imgPkg, "artifact/image/symlink", "artifact/image/unpack", "artifact/image/pathtree")
 	r.Rule("D11-unpacked-content", "the squashed unpack writes, for every regular entry, the bytes read for that entry")
 	freshContentPerEntry(p, r, "D11-unpacked-content")
+	r.Rule("D12-layer-content", "a layer's regular file is copied from a reader made for that tar entry")
+	c04LayerContent(p, r, "D12-layer-content")
 }
 
 // c04Materialise: (a) an entry's handler (handleFile/handleDir/handleSymlink — the code that
@@ -672,4 +674,50 @@ func c04OmissionsAs(p *Prog, r *Report, ruleName string) {
 	r.Count("sanctioned skip edges", len(cut))
 	r.Instances(ruleName, "sanctioned skip edges in the fill routine", len(cut), 7)
 	_ = fmt.Sprint
+}
+
+// c04LayerContent: the bytes stored for a regular tar entry of a layer are read from the tar reader
+// positioned on that entry, through a reader that is created for this entry — a capped reader made
+// once per layer keeps its remaining count across entries, so once a layer's files add up to the cap
+// every later file of the layer is stored truncated or empty while its size and listing stay right.
+func c04LayerContent(p *Prog, r *Report, rule string) {
+	const ipkg = "artifact/image/layerscanning/image"
+	hf := p.Func(ipkg, "Image.handleFile")
+	if hf == nil {
+		r.Undecided(rule, "anchor:Image.handleFile", "-", "not found")
+		return
+	}
+	n := 0
+	forEachInstr(hf, func(_ *ssa.BasicBlock, _ int, in ssa.Instruction) {
+		c, ok := in.(*ssa.Call)
+		if !ok || !refOf(c.Common()).is("io", "", "Copy") {
+			return
+		}
+		n++
+		site := fnKey(hf) + ":source-of-copy"
+		src := stripIface(c.Call.Args[1])
+		fresh := false
+		isTar := func(v ssa.Value) bool {
+			v = stripIface(v)
+			pr, isP := v.(*ssa.Parameter)
+			if !isP {
+				return false
+			}
+			n := namedOf(pr.Type())
+			return n != nil && n.Obj().Name() == "Reader" && n.Obj().Pkg() != nil && n.Obj().Pkg().Path() == "archive/tar"
+		}
+		switch {
+		case isTar(src):
+			fresh = true
+		default:
+			if lc, _ := callValue(src); lc != nil && lc.Parent() == hf {
+				rf := refOf(lc.Common())
+				if (rf.is("io", "", "LimitReader") || rf.is("io", "", "TeeReader") || rf.is("bufio", "", "NewReader")) && isTar(lc.Call.Args[0]) {
+					fresh = true
+				}
+			}
+		}
+		r.Check(fresh, rule, site, p.Pos(c.Pos()), "io.Copy reads the tar reader itself, or a reader wrapped around it for this entry", "the content of a layer's regular file is copied from a reader that is not created for this entry from the tar reader (a capped or buffered reader shared by the entries of a layer carries its state from one file to the next: later files are stored truncated or empty)")
+	})
+	r.Instances(rule, "copies into layer files", n, 1)
 }
